@@ -8,14 +8,96 @@
 (*           (_hashes_to_indices, _max_index); read from the file on opening   *)
 (* mem     : what has been cached since the file was created (abstract)        *)
 (* An input is identified by a small integer; the harness gives it distinct    *)
-(* arrays, outputs and Jacobians.  Two cache objects writing to one node at    *)
-(* the same time are outside this module (one object is open at a time).       *)
+(* arrays and outputs.  Two cache objects writing to one node at the same time *)
+(* are outside this module (one object is open at a time).                     *)
+(*                                                                             *)
+(* Jacobians.  What is cached is a mathematical object: for every (output,     *)
+(* input) pair a matrix.  cache_jacobian accepts the matrix in several         *)
+(* REPRESENTATIONS (a dense ndarray, a scipy sparse array in CSR, CSC or COO   *)
+(* format); mem keeps the matrix whatever the representation, entries keep the *)
+(* form the file stores it in (HDF5FileSingleton.__write_sparse_array: the     *)
+(* row-compressed triplet data / indices / indptr + shape of value.tocsr() for *)
+(* a sparse array, the array itself for a dense one), and Lookup decodes that  *)
+(* form the way __read_sparse_array does (always as a row-compressed triplet). *)
+(* The blocks are non-symmetric (pattern and values), square or not, with a    *)
+(* row of zeros, so that a form stored or read along the wrong axis, or with   *)
+(* the wrong pointers, is another matrix.                                      *)
+(* A "big" block stands for a Jacobian whose sparse form does not fit in the   *)
+(* attributes of an HDF5 dataset (more than 16384 non-zero elements): its      *)
+(* elements are not modelled (rows = <<>>, the harness supplies the matrix and *)
+(* compares what is served with what it supplied); only its existence, shape   *)
+(* and stored format are.                                                      *)
 EXTENDS Naturals, Sequences, FiniteSets, TLC
-CONSTANTS NInputs
+CONSTANTS NInputs,
+          Reps,          \* the representations handed to cache_jacobian, a subset of AllReps
+          Blocks         \* the Jacobian blocks in use, a subset of AllBlocks
 VARIABLES entries, known, maxIdx, mem
 cvars == <<entries, known, maxIdx, mem>>
 Inputs == 1..NInputs
-Nothing == [out |-> FALSE, jac |-> FALSE]
+AllReps == {"dense", "csr", "csc", "coo"}
+AllBlocks == {"sq", "wide", "tall", "big"}
+BigN == 400                                  \* the big block is BigN x BigN with ~24000 non-zero elements
+ASSUME Reps \subseteq AllReps /\ Blocks \subseteq AllBlocks /\ NInputs \in Nat
+
+\* ------------------------------------------------------------------ the matrices
+\* block -> the output and the input it differentiates, and its shape <<rows, columns>>
+OutOf(b) == IF b = "wide" THEN "z" ELSE IF b = "big" THEN "Y" ELSE "y"
+InOf(b) == IF b = "tall" THEN "w" ELSE IF b = "big" THEN "X" ELSE "x"
+ShapeOf(b) == IF b = "sq" THEN <<3, 3>> ELSE IF b = "wide" THEN <<2, 3>>
+              ELSE IF b = "tall" THEN <<3, 2>> ELSE <<BigN, BigN>>
+\* element (r, c) of a block cached for input i:   sq  [x x x]   wide [x x x]   tall [x x]
+\*                                                     [0 x 0]        [0 x 0]        [0 x]
+\*                                                     [0 0 0]                       [0 0]
+Elem(i, r, c) == IF (r + 2 * c) % 4 = 0 \/ r = 3 THEN 0 ELSE 16 * i + 4 * (r - 1) + c
+Rows(i, b) == IF b = "big" THEN <<>>
+              ELSE [r \in 1..ShapeOf(b)[1] |-> [c \in 1..ShapeOf(b)[2] |-> Elem(i, r, c)]]
+\* the sibling block d out / d n (n: an input of size 1), always given as a dense column
+ColRows(i, b) == IF b = "big" THEN <<>> ELSE [r \in 1..ShapeOf(b)[1] |-> <<100 * i + r>>]
+\* a block of a Jacobian, as a mathematical object
+Block(o, n, shape, rows) == [o |-> o, n |-> n, shape |-> shape, rows |-> rows]
+\* the Jacobian cached by CacheJacobian(i, rep, b): {out: {in: the block in representation rep, "n": the column}}
+JacOf(i, b) == {Block(OutOf(b), InOf(b), ShapeOf(b), Rows(i, b)),
+                Block(OutOf(b), "n", <<ShapeOf(b)[1], 1>>, ColRows(i, b))}
+
+\* ------------------------------------------------------------------ the stored forms
+RECURSIVE Concat(_, _)
+Concat(ss, k) == IF k > Len(ss) THEN <<>> ELSE ss[k] \o Concat(ss, k + 1)
+RECURSIVE SumLen(_, _)
+SumLen(ss, k) == IF k = 0 THEN 0 ELSE Len(ss[k]) + SumLen(ss, k - 1)
+NzCols(row) == SelectSeq([c \in 1..Len(row) |-> c], LAMBDA c : row[c] # 0)
+\* value.tocsr(): row by row, the non-zero elements in column order; indices are 0-based columns;
+\* indptr[r] .. indptr[r + 1] delimit row r
+CsrOf(rows, shape) ==
+  LET nz == [r \in 1..Len(rows) |-> NzCols(rows[r])]
+  IN [fmt |-> "csr", shape |-> shape,
+      data |-> Concat([r \in 1..Len(rows) |-> [k \in 1..Len(nz[r]) |-> rows[r][nz[r][k]]]], 1),
+      indices |-> Concat([r \in 1..Len(rows) |-> [k \in 1..Len(nz[r]) |-> nz[r][k] - 1]], 1),
+      indptr |-> [r \in 1..(Len(rows) + 1) |-> SumLen(nz, r - 1)]]
+\* a dense array is a dataset of its own: row-major
+DenseOf(rows, shape) ==
+  [fmt |-> "dense", shape |-> shape, data |-> Concat(rows, 1), indices |-> <<>>, indptr |-> <<>>]
+\* the big block: format and shape only
+OpaqueOf(fmt, shape) == [fmt |-> fmt, shape |-> shape, data |-> <<>>, indices |-> <<>>, indptr |-> <<>>]
+\* write_data: isinstance(value, sparse_classes) ? __write_sparse_array(value.tocsr()) : dataset(value)
+FormOf(blk, rep) ==
+  IF blk.rows = <<>> THEN OpaqueOf(IF rep = "dense" THEN "dense" ELSE "csr", blk.shape)
+  ELSE IF rep = "dense" THEN DenseOf(blk.rows, blk.shape) ELSE CsrOf(blk.rows, blk.shape)
+Stored(blk, rep) == [o |-> blk.o, n |-> blk.n, form |-> FormOf(blk, rep)]
+\* the representation of each block of JacOf(i, b): the harness gives rep to the block itself, the column is dense
+StoredJac(i, rep, b) == {Stored(blk, IF blk.n = "n" THEN "dense" ELSE rep) : blk \in JacOf(i, b)}
+
+\* read_data: dataset.attrs["sparse"] ? csr_array((data, indices, indptr), shape) : array(dataset)
+ReadRows(f) ==
+  IF f.data = <<>> /\ f.indptr = <<>> THEN <<>>                         \* the big block
+  ELSE IF f.fmt = "dense"
+  THEN [r \in 1..f.shape[1] |-> [c \in 1..f.shape[2] |-> f.data[(r - 1) * f.shape[2] + c]]]
+  ELSE [r \in 1..f.shape[1] |-> [c \in 1..f.shape[2] |->
+          LET ks == {k \in (f.indptr[r] + 1)..f.indptr[r + 1] : f.indices[k] = c - 1}
+          IN IF ks = {} THEN 0 ELSE f.data[CHOOSE k \in ks : TRUE]]]
+ReadBlock(s) == Block(s.o, s.n, s.form.shape, ReadRows(s.form))
+
+\* ------------------------------------------------------------------ the cache
+Nothing == [out |-> FALSE, jac |-> {}]
 
 Init == /\ entries = <<>>
         /\ known = <<>>                       \* function input -> index, empty domain
@@ -24,20 +106,27 @@ Init == /\ entries = <<>>
 
 \* __ensure_input_data_exists: a new input gets index _max_index + 1 and its inputs group
 Ensure(i) == IF i \in DOMAIN known THEN entries
-             ELSE Append(entries, [inp |-> i, out |-> FALSE, jac |-> FALSE])
+             ELSE Append(entries, [inp |-> i, out |-> FALSE, jac |-> {}])
 IndexOf(i) == IF i \in DOMAIN known THEN known[i] ELSE maxIdx + 1
 
-Cache(i, group) ==
+\* _cache_inputs returns True when the group exists already: the first data cached for an input stay
+Cache(i, group, jac, stored) ==
   LET e == Ensure(i)
       j == IndexOf(i)
   IN /\ j <= Len(e)                         \* the index designates an entry of the file (else: D11)
-     /\ entries' = IF group = "out" THEN [e EXCEPT ![j].out = TRUE] ELSE [e EXCEPT ![j].jac = TRUE]
+     /\ entries' = IF group = "out" THEN [e EXCEPT ![j].out = TRUE]
+                   ELSE IF e[j].jac # {} THEN e ELSE [e EXCEPT ![j].jac = stored]
      /\ known' = [k \in (DOMAIN known) \cup {i} |-> IF k = i THEN j ELSE known[k]]
      /\ maxIdx' = IF i \in DOMAIN known THEN maxIdx ELSE maxIdx + 1
-     /\ mem' = IF group = "out" THEN [mem EXCEPT ![i].out = TRUE] ELSE [mem EXCEPT ![i].jac = TRUE]
+     /\ mem' = IF group = "out" THEN [mem EXCEPT ![i].out = TRUE]
+               ELSE IF mem[i].jac # {} THEN mem ELSE [mem EXCEPT ![i].jac = jac]
 
-CacheOutputs(i) == Cache(i, "out")          \* cache.cache_outputs(inputs_i, outputs_i)
-CacheJacobian(i) == Cache(i, "jac")         \* cache.cache_jacobian(inputs_i, jacobian_i)
+\* cache.cache_outputs(inputs_i, outputs_i)
+CacheOutputs(i) == /\ i \in Inputs
+                   /\ Cache(i, "out", {}, {})
+\* cache.cache_jacobian(inputs_i, {out: {in: block b in representation rep, "n": column}})
+CacheJacobian(i, rep, b) == /\ i \in Inputs /\ rep \in Reps /\ b \in Blocks
+                            /\ Cache(i, "jac", JacOf(i, b), StoredJac(i, rep, b))
 
 \* cache = HDF5Cache(hdf_file_path=same file, hdf_node_path=same node): _read_hashes
 Reopen ==
@@ -46,18 +135,36 @@ Reopen ==
   /\ maxIdx' = Len(entries)
   /\ UNCHANGED <<entries, mem>>
 
-Next == \/ \E i \in Inputs : CacheOutputs(i) \/ CacheJacobian(i)
+Next == \/ \E i \in Inputs : CacheOutputs(i)
+        \/ \E i \in Inputs, rep \in Reps, b \in Blocks : CacheJacobian(i, rep, b)
         \/ Reopen
 Spec == Init /\ [][Next]_cvars
 
 -----------------------------------------------------------------------------
 \* what the open cache object returns for input i: cache[inputs_i]
 Lookup(i) == IF i \in DOMAIN known /\ known[i] <= Len(entries)
-             THEN [out |-> entries[known[i]].out, jac |-> entries[known[i]].jac]
+             THEN [out |-> entries[known[i]].out, jac |-> {ReadBlock(s) : s \in entries[known[i]].jac}]
              ELSE Nothing
-\* C11 for caches: whatever was cached is served, by the writing object and by any later one
+\* C11 for caches: whatever was cached is served (the same matrices, whatever the representation they
+\* were given in), by the writing object and by any later one
 Served == \A i \in Inputs : Lookup(i) = mem[i]
 NoDuplicate == \A a, b \in 1..Len(entries) : entries[a].inp = entries[b].inp => a = b
 LenIsMax == maxIdx = Len(entries) /\ maxIdx = Cardinality(DOMAIN known)
 ReopenIsIdentity == [][Reopen => (known' = known /\ maxIdx' = maxIdx)]_cvars
+\* every representation of every block is stored in a form that reads back to the block
+FormsRoundTrip == \A i \in Inputs, rep \in Reps, b \in Blocks :
+                    {ReadBlock(s) : s \in StoredJac(i, rep, b)} = JacOf(i, b)
+
+\* the Jacobians as mathematical objects, for the harness, which builds them in every representation
+\* (evaluated once)
+ASSUME \A i \in Inputs, b \in Blocks : PrintT(<<"JAC", i, b, JacOf(i, b)>>)
+
+\* Non-vacuity of the representation dimension (evaluated once): the column-compressed triplet of a
+\* block, read as a row-compressed one, is NOT the block (square: its transpose; else: malformed).
+Transpose(rows, shape) == [c \in 1..shape[2] |-> [r \in 1..shape[1] |-> rows[r][c]]]
+CscAsCsr(rows, shape) == [CsrOf(Transpose(rows, shape), shape) EXCEPT !.fmt = "csr"]
+ASSUME \A b \in AllBlocks \ {"big"} :
+         LET f == CscAsCsr(Rows(1, b), ShapeOf(b))
+         IN \/ Len(f.indptr) # ShapeOf(b)[1] + 1
+            \/ ReadRows(f) # Rows(1, b)
 =============================================================================
